@@ -15,6 +15,19 @@ package main
 //@   ensures bad-right: len(args) == 2 && e.NewVersion(args[0]).1 == nil && e.NewVersion(args[1]).1 != nil ==> result1 != nil   [C15]
 //@   ensures faithful: len(args) == 2 && e.NewVersion(args[0]).1 == nil && e.NewVersion(args[1]).1 == nil ==> result1 == nil && result0 == e.NewVersion(args[0]).0.Compare(e.NewVersion(args[1]).0)   [C15]
 
+// ---- sort (C07).  slices.SortFunc is a library call with an ASSUMED contract (the result is a permutation of its input,
+// non-decreasing under the comparison, which has to be a total preorder: C01); sortperm(i) names that permutation:
+// position i of the sorted slice holds the element that was at position sortperm(i).
+//@ func sort
+//@   loop 1 invariant len(versions) == rangeindex + 1 && (forall j int :: 0 <= j && j <= rangeindex ==> e.NewVersion(args[j]).1 == nil && versions[j] == e.NewVersion(args[j]).0)
+//@   loop 2 invariant len(sortedversions) == rangeindex + 1 && (forall j int :: 0 <= j && j <= rangeindex ==> sortedversions[j] == versions[j].String())
+//@   ensures no-arguments: len(args) == 0 ==> result1 != nil && len(result0) == 0   [C07 C15]
+//@   ensures invalid-input: (exists i int :: 0 <= i && i < len(args) && e.NewVersion(args[i]).1 != nil) ==> result1 != nil && len(result0) == 0   [C07 C15]
+//@   ensures all-valid: len(args) > 0 && (forall k int :: 0 <= k && k < len(args) ==> e.NewVersion(args[k]).1 == nil) ==> result1 == nil && len(result0) == len(args)   [C07 C15]
+//@   ensures same-versions: len(args) > 0 && (forall k int :: 0 <= k && k < len(args) ==> e.NewVersion(args[k]).1 == nil) ==> (forall i int :: 0 <= i && i < len(args) ==> 0 <= sortperm(i) && sortperm(i) < len(args) && result0[i] == e.NewVersion(args[sortperm(i)]).0.String())   [C07]
+//@   ensures each-once: len(args) > 0 && (forall k int :: 0 <= k && k < len(args) ==> e.NewVersion(args[k]).1 == nil) ==> (forall i, j int :: 0 <= i && i < len(args) && 0 <= j && j < len(args) && sortperm(i) == sortperm(j) ==> i == j)   [C07]
+//@   ensures ordered: len(args) > 0 && (forall k int :: 0 <= k && k < len(args) ==> e.NewVersion(args[k]).1 == nil) ==> (forall i int :: forall j int :: 0 <= i && i < j && j < len(args) ==> e.NewVersion(args[sortperm(i)]).0.Compare(e.NewVersion(args[sortperm(j)]).0) <= 0)   [C07]
+
 //@ func contains
 //@   ensures arity: len(args) != 2 ==> result1 != nil && !result0                                        [C15]
 //@   ensures bad-range: len(args) == 2 && e.NewVersionRange(args[0]).1 != nil ==> result1 != nil && !result0   [C15]
